@@ -351,7 +351,30 @@ def rule_window(check):
         lk = [x for x in hir.calls_in(g.body, name="lookup_char_pos")]
         ok = len(lk) == 1 and _side(hir.place(hir.call_args(lk[0])[1]) or "").endswith("span.lo")
         check.expect(ok, R, R + "/position", hir.loc(n), "position = lookup_char_pos(span.lo)", "position is not looked up from span.lo")
-        idn = hir.place(flds["ident"]) or ""
+        CONV = ("clone", "as_ref", "as_deref", "cloned", "to_owned", "to_string", "into", "as_str", "from")
+
+        def _conv_only(fx):
+            """a function value that only converts the representation of a name (JsWord / &str / String)"""
+            fx = hir.peel(fx)
+            if fx.get("k") == "Path":
+                return (((fx.get("res") or {}).get("path") or "").split("::")[-1]) in CONV
+            if fx.get("k") == "Closure":
+                b_ = hir.peel(fx["body"])
+                while hir.is_call(b_) and (hir.callee_name(b_) or b_.get("method")) in CONV and hir.call_args(b_):
+                    b_ = hir.peel(hir.call_args(b_)[-1] if (hir.callee_name(b_) or b_.get("method")) == "from" else hir.call_args(b_)[0])
+                return b_.get("k") == "Path" and hir.local_of(b_) is not None
+            return False
+
+        ide = flds["ident"]
+        while hir.is_call(ide) and hir.call_args(ide):
+            m_ = hir.callee_name(ide) or ide.get("method")
+            if m_ in CONV and m_ != "from":
+                ide = hir.peel(hir.call_args(ide)[0])
+            elif m_ == "map" and len(hir.call_args(ide)) == 2 and _conv_only(hir.call_args(ide)[1]):
+                ide = hir.peel(hir.call_args(ide)[0])
+            else:
+                break
+        idn = hir.place(ide) or ""
         check.expect(_side(idn).endswith("ident"), R, R + "/ident", hir.loc(n), "ident copied from the recorded occurrence", "ident is %s" % idn)
 
 
@@ -528,6 +551,11 @@ def run(check):
     check.guarded("DEDUPE-KEY", rule_dedupe)
     check.guarded("COLLECT-SCOPE", rule_collect_scope)
     check.guarded("LITERALS-GATE", rule_enable)
+    # the literals are collected from the tree *after* the instrumentation pass: a transform that declines
+    # must hand the node back as it got it, or string literals of code that is reported as unchanged
+    # (a computed key turned into a name, ..) drop out of the report
+    from .. import xformrules as _X
+    check.guarded("NOT-MODIFIED-UNTOUCHED", _X.rule_not_modified_untouched)
     return {
         "explanation": "Traversal-completeness analysis of the literal collector with the two documented exclusions recognised only under exactly their four conjuncts, a discarded-predicate lint, constant/operator checks of the length window and location arithmetic, dedupe-key and ordering rules, and inventory rules showing instrumentation cannot add string literals.",
         "assumptions": ["swc keeps spans when nodes are cloned", "SourceMap::lookup_char_pos returns 1-based lines and 0-based columns"],
